@@ -544,7 +544,7 @@ fn exec_embedded(case: &Sx) -> Sx {
 // ------------------------------------------------------------------------------------------ worker sink
 
 const FLUSH_MARK: u64 = u64::MAX;
-const TRACE_CAP: u64 = 20_000;
+const TRACE_CAP: u64 = 200;
 
 /// The inner sink handed to WorkerSink: forwards to the real sink tree and records, on the worker thread,
 /// the calls it receives (ids of merged entries, flushes) and the batch boundaries of every leaf.
@@ -712,10 +712,184 @@ fn exec_worker_det(case: &Sx, out_fail: &mut Vec<String>) -> Sx {
     Sx::L(vec![if mode == 1 { drop_empty(enc) } else { enc }, sx::n(acks), sx::boolean(exited)])
 }
 
+// ------------------------------------------------------------------------------------------ real threads
+
+/// tag 4: several producer threads on one WorkerSink.  Each thread owns a handle clone and runs its script;
+/// the order in which the worker thread calls the inner sink is recorded (Rec) and reported.
+/// observed: (log leaves (ack snapshots per thread) exited)
+fn exec_worker_thr(case: &Sx, out_fail: &mut Vec<String>) -> Sx {
+    let mode = case.arg(2).num();
+    let shared = Arc::new(RecShared::default());
+    let mut leaves = vec![];
+    let tree = build_tree(case.arg(1), &mut leaves, &None);
+    *shared.leaves.lock().unwrap() = leaves;
+    let sink: WSink = WorkerSink::new(Rec { inner: tree, shared: shared.clone() }, interval_of(mode));
+    let scripts: Vec<Sx> = case.arg(3).list().to_vec();
+    let start = Arc::new(std::sync::Barrier::new(scripts.len()));
+    let mut joins = vec![];
+    for sc in scripts {
+        let hd = sink.clone();
+        let start = start.clone();
+        let shared = shared.clone();
+        joins.push(std::thread::spawn(move || {
+            let rt = rt();
+            let mut guards: Vec<Option<WGuard>> = vec![];
+            let mut snaps: Vec<Sx> = vec![];
+            let mut problems: Vec<String> = vec![];
+            start.wait();
+            for a in sc.list() {
+                match a.tag() {
+                    0 => hd.send(to_item(&dec_entry(a.arg(0))).close()),
+                    1 => {
+                        let ok = rt.block_on(async { tokio::time::timeout(Duration::from_secs(5), hd.flush()).await.is_ok() });
+                        if !ok {
+                            problems.push("flush() was not acknowledged within 5 s".to_string());
+                        }
+                        snaps.push(sx::n(shared.trace.lock().unwrap().len() as u64));
+                    }
+                    4 => guards.push(Some(to_item(&dec_entry(a.arg(0))).close_and_merge(hd.clone()))),
+                    5 => {
+                        if let Some(Some(gd)) = guards.get_mut(a.arg(0).num() as usize) {
+                            **gd = to_item(&dec_entry(a.arg(1)));
+                        }
+                    }
+                    6 => {
+                        if let Some(slot) = guards.get_mut(a.arg(0).num() as usize) {
+                            drop(slot.take());
+                        }
+                    }
+                    8 => std::thread::sleep(Duration::from_micros(a.arg(0).num() as u64)),
+                    _ => {}
+                }
+            }
+            for g in guards.iter_mut() {
+                drop(g.take());
+            }
+            drop(hd);
+            (Sx::L(snaps), problems)
+        }));
+    }
+    drop(sink);
+    let mut snaps = vec![];
+    for j in joins {
+        match j.join() {
+            Ok((s, p)) => {
+                snaps.push(s);
+                out_fail.extend(p);
+            }
+            Err(_) => {
+                snaps.push(Sx::L(vec![]));
+                out_fail.push("a producer thread panicked".to_string());
+            }
+        }
+    }
+    let exited = match await_exit(&shared, Duration::from_secs(2)) {
+        Ok(()) => true,
+        Err(spins) => {
+            WORKER_BROKEN.store(true, Ordering::SeqCst);
+            out_fail.push(format!(
+                "worker thread still running 2 s after its last handle was dropped (inner sink never dropped; {} flush calls in the following 20 ms)",
+                spins
+            ));
+            false
+        }
+    };
+    let lv = shared.leaves.lock().unwrap();
+    let enc = enc_leaves(0, &lv);
+    let log: Vec<Sx> = shared.trace.lock().unwrap().iter().map(|&i| sx::n(i)).collect();
+    Sx::L(vec![Sx::L(log), if mode == 0 { enc } else { drop_empty(enc) }, Sx::L(snaps), sx::boolean(exited)])
+}
+
+/// the aggregate behind the mutex, recording (under the lock) what it is asked to do
+pub struct RecM {
+    inner: Aggregate<Plain>,
+}
+static MUTEX_LOG: Mutex<Vec<u64>> = Mutex::new(Vec::new());
+static MUTEX_CLOSES: AtomicU64 = AtomicU64::new(0);
+impl Default for RecM {
+    fn default() -> Self {
+        RecM { inner: Aggregate::default() }
+    }
+}
+impl AggregateSink<PlainEntry> for RecM {
+    fn merge(&mut self, e: PlainEntry) {
+        #[allow(deprecated)]
+        let id = e.last;
+        MUTEX_LOG.lock().unwrap().push(id);
+        self.inner.merge(e);
+    }
+}
+impl CloseValue for RecM {
+    type Closed = (u64, TestEntry);
+    fn close(self) -> Self::Closed {
+        MUTEX_LOG.lock().unwrap().push(FLUSH_MARK);
+        let k = MUTEX_CLOSES.fetch_add(1, Ordering::SeqCst);
+        (k, test_metric(self.inner))
+    }
+}
+type MSink = metrique_aggregation::sink::MutexSink<RecM>;
+type MGuard = metrique_aggregation::sink::CloseAndMergeOnDrop<Plain, MSink>;
+
+/// tag 2: several threads on one MutexSink<Aggregate<Plain>>: direct merges, guards, closes on clones.
+/// observed: (log (closed aggregates in lock order))
+fn exec_mutex(case: &Sx, out_fail: &mut Vec<String>) -> Sx {
+    use metrique_aggregation::traits::RootSink;
+    MUTEX_LOG.lock().unwrap().clear();
+    MUTEX_CLOSES.store(0, Ordering::SeqCst);
+    let sink: MSink = MSink::new(RecM::default());
+    let scripts: Vec<Sx> = case.arg(1).list().to_vec();
+    let start = Arc::new(std::sync::Barrier::new(scripts.len().max(1)));
+    let closes: Arc<Mutex<Vec<(u64, TestEntry)>>> = Default::default();
+    let mut joins = vec![];
+    for sc in scripts {
+        let hd = sink.clone();
+        let start = start.clone();
+        let closes = closes.clone();
+        joins.push(std::thread::spawn(move || {
+            let mut guards: Vec<Option<MGuard>> = vec![];
+            start.wait();
+            for a in sc.list() {
+                match a.tag() {
+                    0 => RootSink::merge(&hd, to_plain(&dec_entry(a.arg(0))).close()),
+                    4 => guards.push(Some(to_plain(&dec_entry(a.arg(0))).close_and_merge(hd.clone()))),
+                    5 => {
+                        if let Some(Some(gd)) = guards.get_mut(a.arg(0).num() as usize) {
+                            **gd = to_plain(&dec_entry(a.arg(1)));
+                        }
+                    }
+                    6 => {
+                        if let Some(slot) = guards.get_mut(a.arg(0).num() as usize) {
+                            drop(slot.take());
+                        }
+                    }
+                    7 => closes.lock().unwrap().push(hd.clone().close()),
+                    8 => std::thread::sleep(Duration::from_micros(a.arg(0).num() as u64)),
+                    _ => {}
+                }
+            }
+            for g in guards.iter_mut() {
+                drop(g.take());
+            }
+        }));
+    }
+    for j in joins {
+        if j.join().is_err() {
+            out_fail.push("a thread panicked".to_string());
+        }
+    }
+    closes.lock().unwrap().push(sink.close());
+    let mut cl = closes.lock().unwrap().clone();
+    cl.sort_by_key(|c| c.0);
+    let log: Vec<Sx> = MUTEX_LOG.lock().unwrap().iter().map(|&i| sx::n(i)).collect();
+    Sx::L(vec![Sx::L(log), Sx::L(cl.iter().map(|c| enc_agg(0, &c.1)).collect())])
+}
+
 pub fn exec(case: &Sx, fails: &mut Vec<String>) -> (Sx, bool) {
     let r = catch(|| match case.tag() {
         0 => exec_tree(case),
         3 => exec_worker_det(case, fails),
+        2 => exec_mutex(case, fails),
+        4 => exec_worker_thr(case, fails),
         _ => exec_embedded(case),
     });
     let nontrivial = match case.tag() {
@@ -726,6 +900,10 @@ pub fn exec(case: &Sx, fails: &mut Vec<String>) -> (Sx, bool) {
         3 => {
             let sc = case.arg(3).list();
             sc.iter().filter(|a| matches!(a.tag(), 0 | 6)).count() >= 2
+        }
+        2 | 4 => {
+            let scs = if case.tag() == 2 { case.arg(1).list() } else { case.arg(3).list() };
+            scs.iter().map(|sc| sc.list().iter().filter(|a| matches!(a.tag(), 0 | 4)).count()).sum::<usize>() >= 2
         }
         _ => case.arg(1).list().len() >= 2,
     };
@@ -830,6 +1008,22 @@ fn describe(out: &mut Out, case: &Sx) {
                 out.count(match a.tag() { 0 => "wact_send", 1 => "wact_flush", 2 => "wact_clone", 3 => "wact_drop_handle", 4 => "wact_guard_new", 5 => "wact_guard_set", _ => "wact_guard_drop" });
             }
         }
+        2 | 4 => {
+            let scs = if case.tag() == 2 { case.arg(1).list() } else { case.arg(3).list() };
+            let kind = if case.tag() == 2 { "mutex" } else { "worker" };
+            out.count(&format!("{kind}_thr_threads_{}", scs.len()));
+            if case.tag() == 4 {
+                out.count(&format!("worker_thr_mode_{}", case.arg(2).num()));
+                out.count(&format!("worker_thr_tree_{}", tree_name(case.arg(1))));
+            }
+            let n: usize = scs.iter().map(|sc| sc.list().len()).sum();
+            out.count(&format!("{kind}_thr_actions_{}", bucket(n as u64)));
+            for sc in scs {
+                for a in sc.list() {
+                    out.count(&format!("{kind}_thr_act_{}", match a.tag() { 0 => "send", 1 => "flush", 4 => "guard_new", 5 => "guard_set", 6 => "guard_drop", 7 => "close", _ => "sleep" }));
+                }
+            }
+        }
         _ => {
             out.count(&format!("embedded_inserts_{}", bucket(case.arg(1).list().len() as u64)));
         }
@@ -857,8 +1051,9 @@ fn tree_name(t: &Sx) -> String {
 pub fn run(ctx: &Ctx) {
     crate::common::quiet_panics();
     let mut out = Out::new(ctx, "");
+    let mut out_thr = Out::new(ctx, "-thr");
     let emit = |out: &mut Out, case: Sx| {
-        if case.tag() == 3 && WORKER_BROKEN.load(Ordering::SeqCst) {
+        if matches!(case.tag(), 3 | 4) && WORKER_BROKEN.load(Ordering::SeqCst) {
             // every further worker case would leak another spinning thread and wait for its deadline
             out.count("worker_cases_skipped_after_failure");
             return;
@@ -866,6 +1061,12 @@ pub fn run(ctx: &Ctx) {
         describe(out, &case);
         let mut fails = vec![];
         let (imp, nt) = exec(&case, &mut fails);
+        if matches!(case.tag(), 2 | 4) {
+            // how concurrent was the observed linearisation: switches between producing threads
+            let ids: Vec<u64> = imp.list().first().map(|l| l.list().iter().map(|x| x.num() as u64).filter(|&i| i != FLUSH_MARK).collect()).unwrap_or_default();
+            let sw = ids.windows(2).filter(|w| (w[0] >> 20) != (w[1] >> 20)).count();
+            out.count(&format!("{}_thr_thread_switches_in_log_{}", if case.tag() == 2 { "mutex" } else { "worker" }, bucket(sw as u64)));
+        }
         out.case(&case, &imp, nt);
         for f in fails {
             out.fail(f, &case);
@@ -873,9 +1074,11 @@ pub fn run(ctx: &Ctx) {
     };
     if let Some(p) = &ctx.replay {
         for line in std::fs::read_to_string(p).unwrap().lines().filter(|l| l.starts_with('(')) {
-            emit(&mut out, sx::parse(line));
+            let case = sx::parse(line);
+            if matches!(case.tag(), 2 | 4) { emit(&mut out_thr, case) } else { emit(&mut out, case) }
         }
         out.finish("replay");
+        out_thr.finish("replay");
         return;
     }
     let mut g = Gen { rng: Rng::new(ctx.seed), next_id: 1 };
@@ -1010,5 +1213,59 @@ pub fn run(ctx: &Ctx) {
         }
         emit(&mut out, sx::tag(3, vec![enc_shape(0), tree, sx::n(mode), Sx::L(sc)]));
     }
+    // real threads: 1-4 threads on one MutexSink<Aggregate<Plain>> / one WorkerSink
+    let nt = if ctx.tier_thorough { 5000 } else { 600 };
+    for i in 0..nt {
+        let worker = i % 2 == 0;
+        let nthreads = g.rng.range(1, 4);
+        let nk = *g.rng.pick(&[1usize, 2, 5, 40]);
+        let names = g.names(nk);
+        let mode = if worker { *g.rng.pick(&[0u64, 0, 1, 2]) } else { 0 };
+        let mut scripts = vec![];
+        for t in 0..nthreads {
+            let len = *g.rng.pick(&[0u64, 2, 6, 20, 60]) + g.rng.below(4);
+            let mut seq = 0u64;
+            let mut guards: Vec<bool> = vec![];
+            let mut sc = vec![];
+            let mut mk = |g: &mut Gen, seq: &mut u64| {
+                let mut e = g.entry(0, &names, 2, false);
+                e.id = (t << 20) | *seq;
+                e.lasts[0] = Some(e.id);
+                *seq += 1;
+                enc_entry(&e)
+            };
+            for _ in 0..len {
+                let live: Vec<usize> = guards.iter().enumerate().filter(|(_, a)| **a).map(|(i, _)| i).collect();
+                match g.rng.below(20) {
+                    0..=8 => sc.push(sx::tag(0, vec![mk(&mut g, &mut seq)])),
+                    9..=10 => sc.push(if worker { sx::tag(1, vec![]) } else { sx::tag(7, vec![]) }),
+                    11..=13 => {
+                        sc.push(sx::tag(4, vec![mk(&mut g, &mut seq)]));
+                        guards.push(true);
+                    }
+                    14..=15 => {
+                        if let Some(&gi) = live.get(g.rng.below(live.len().max(1) as u64) as usize) {
+                            sc.push(sx::tag(5, vec![sx::n(gi as u64), mk(&mut g, &mut seq)]));
+                        }
+                    }
+                    16..=17 => {
+                        if let Some(&gi) = live.get(g.rng.below(live.len().max(1) as u64) as usize) {
+                            sc.push(sx::tag(6, vec![sx::n(gi as u64)]));
+                            guards[gi] = false;
+                        }
+                    }
+                    _ => sc.push(sx::tag(8, vec![sx::n(g.rng.range(1, 400))])),
+                }
+            }
+            scripts.push(Sx::L(sc));
+        }
+        let case = if worker {
+            sx::tag(4, vec![enc_shape(0), gen_tree(&mut g.rng), sx::n(mode), Sx::L(scripts)])
+        } else {
+            sx::tag(2, vec![enc_shape(0), Sx::L(scripts)])
+        };
+        emit(&mut out_thr, case);
+    }
+    out_thr.finish("real threads: 1-4 threads with random scripts (merges/sends, awaited flushes, guards created / mutated / dropped in any order, closes on clones, sleeps) on one MutexSink<Aggregate> resp. one WorkerSink over a random tee tree (interval never / zero / 300 us); the linearisation recorded under the lock resp. on the worker thread is checked for per-thread FIFO and the flush barrier and replayed through the model. Non-trivial = at least two entries produced; distinct by hash of the case");
     out.finish("sink trees: every operation sequence up to the tier's depth over 4 entries on 3 keys + flush (exhaustive) on a 3-leaf tee, plus random histories (1-600 keys with collisions, flush density 1/3..1/1000, by-ref/owned merges, 5 tree shapes, 2 source types); embedded Aggregate: random insert lists. Non-trivial = at least two merges and one flush (tree) / two inserts (embedded); distinct by hash of the case");
 }
